@@ -2,7 +2,7 @@
 """Must-fail corpus: applies each mutant of selftest/mutants.json to a scratch copy of /repo (outside /repo and
 /verif, removed afterwards), runs the property's check on the copy and requires a VIOLATION whose obligation
 contains the expected text. Usage: selftest.py [--prop Cxx] [--id substr]"""
-import json, os, shutil, subprocess, sys, tempfile
+import re, json, os, shutil, subprocess, sys, tempfile
 root = os.path.dirname(os.path.dirname(os.path.abspath(__file__)))
 args = sys.argv[1:]
 prop = args[args.index("--prop")+1] if "--prop" in args else None
@@ -28,7 +28,9 @@ try:
             r = subprocess.run([os.path.join(root, "bin", "gocv"), "check", "-prop", m["prop"], "-repo", scratch,
                                 "-out", os.path.join(scratch, ".gocv-out"), "-findings", os.path.join(root, "known_findings.txt")],
                                capture_output=True, text=True, env=env)
-            hits = [l for l in r.stdout.splitlines() if l.startswith("VIOLATION") and m["expect"] in l]
+            # property labels ([C01,C04:name]) are scoping, not identity: compare without them
+            strip = lambda t: re.sub(r"C\d\d(,C\d\d)*:", "", t)
+            hits = [l for l in r.stdout.splitlines() if l.startswith("VIOLATION") and strip(m["expect"]) in strip(l)]
             if hits:
                 print(f"killed   {m['id']:50s} {hits[0].split('obligation=')[1][:90]}")
             else:
